@@ -21,6 +21,8 @@ def run(ctx):
         "RoundRobin: 1 <= ChunkSize < 2^32 after normalisation; uint32 counter wrap is known finding D10",
         "LeastBytes: fixed duplicate-free partition list; byte totals < 2^64",
         "each Balance body is atomic: lock bracket extracted by go/ast on every run (theorem balance_bodies_atomic); mutex semantics trusted; sampled by rrconc/lbconc cases",
+        "Hash/ReferenceHash: the hasher is acquired before and released (deferred) after its uses on both paths — event lists regenerated on every run (hasher_paths_owned); sync.Pool / sync.Mutex semantics trusted (pool_exclusive is about the Pool model); sampled by hashconc cases incl. a -race build",
+        "Writer: a metadata topic entry without error lists >= 1 partition (MetaWF; the Writer does not check it: an empty list would make every built-in balancer panic); (*Writer).partitions is hand-modelled, tied by the woffer cases",
     ]
     ok, log = ctx.extract("balancer", ["lean/KafkaVerif/Gen/BalancerConsts.lean"])
     broken = []
@@ -33,17 +35,31 @@ def run(ctx):
     dis = []
     orc, olog = ctx.oracle_build("oracle_c13")
     drv, dlog = ctx.go_build("./cmd/c13", "c13")
-    if orc is None or drv is None:
-        broken.append({"kind": "obligation", "name": "correspondence C13 could not be built", "detail": (olog + dlog)[-1500:]})
+    drvrace, rlog = ctx.go_build("./cmd/c13", "c13race", race=True)
+    races = []
+    if orc is None or drv is None or drvrace is None:
+        broken.append({"kind": "obligation", "name": "correspondence C13 could not be built", "detail": (olog + dlog + rlog)[-1500:]})
     else:
         lines, rc, err = ctx.run_driver(drv, [])
         if rc != 0:
             broken.append({"kind": "obligation", "name": "driver c13 crashed", "detail": err[-1500:]})
+        # the concurrent key-hashing cases once more under the Go race detector: two Balance calls touching one hasher
+        # at the same time is a schedule on which the answer is not a function of key and count
+        rlines, rrc, rerr = ctx.run_driver(drvrace, [], env={"C13_CONC_ONLY": "1", "GORACE": "halt_on_error=0 exitcode=0"})
+        for rep in rerr.split("==================")[1:]:
+            if "DATA RACE" in rep and "balancer.go" in rep:
+                races.append(rep.strip()[:3000])
+        if rrc != 0 and not races:
+            broken.append({"kind": "obligation", "name": "driver c13 (race build) crashed", "detail": rerr[-1500:]})
+        lines = lines + [l.replace("hashconc ", "hashconc race-", 1) for l in rlines if l.startswith("hashconc ")]
         dis = ctx.correspond(lines, orc, "balancer.go ↔ Model/Balancer.lean",
                              nontrivial=lambda op, impl: not op.startswith("cached"))
+        ctx.coverage["race_reports_in_balancer"] = len(races)
     ctx.coverage["rule"] = ("keys: nil, empty, every length 1..40, test-vector strings, random lengths (bias to high-bit bytes); partition counts "
                             "1..65536 (+2^20 for index balancers); sparse/shifted id lists; RoundRobin chunk sizes incl. <1 and start counters at the uint32 wrap; "
-                            "LeastBytes size sequences on permuted lists; concurrent multiset cases. distinct = distinct op lines other than `cached`")
+                            "LeastBytes size sequences on permuted lists; concurrent multiset cases; hashconc = 8..32 goroutines sharing one key-hashing balancer "
+                            "(pool / user hasher / crc32 / murmur2; keys up to 2 KB), also under the race detector; woffer = a real Writer over a fake RoundTripper "
+                            "(topic missing / topic-level error codes / 1..9 partitions / decoy entry first; every built-in balancer + the default). distinct = distinct op lines other than `cached`")
     concrete = [d for d in dis if d.get("kind") == "disagreement" and not d["holds_on_impl"]]
     cid = {id(d) for d in concrete}
     others = [d for d in dis if id(d) not in cid]
@@ -52,6 +68,13 @@ def run(ctx):
         recorded += ctx.violation({"kind": "input", "input": d["op"], "actual": d["impl"], "expected": d["model"],
                        "correspondence": d["correspondence"], "monitor": "Spec/Partitioners reference value / property monitor false on the implementation's output"},
                       True, signature="%s => %s" % (d["op"], d["impl"]))
+    import re as _re
+    for rep in races[:5]:
+        frames = _re.findall(r"^\s+((?:github\.com/segmentio/kafka-go|hash/fnv)\S*)\(", rep, _re.M)
+        recorded += ctx.violation({"kind": "schedule", "input": "hashconc (driver built with -race, C13_CONC_ONLY=1): concurrent Balance calls on one shared balancer value",
+                                   "actual": "the Go race detector observed two Balance calls operating on the same hasher at the same time",
+                                   "expected": "exclusive use of the hasher between acquire and (deferred) release — Props/C13 hasher_paths_owned, pool_exclusive",
+                                   "race_report": rep}, True, signature="race in Balance: " + " | ".join(frames[:4]))
     # NB: decide on violations actually *recorded* — concrete failures that match a known finding do not count
     if (broken or others) and recorded == 0:
         ctx.violation({"kind": "obligation", "broken": broken, "disagreements": others[:20],
